@@ -28,10 +28,15 @@ package errutil
 //@   props C10
 //@   ensures result == strip(self.message)
 
+//@ method (*withPrefix).Error
+//@   props C10 C01
+//@   ensures self.prefix == "" ==> result == msg(self.cause)
+//@   ensures self.prefix != "" ==> result == strip(self.prefix) + ": " + msg(self.cause)
+
 //@ func WithMessage
 //@   props C10 C07 C12
 //@   ensures err == nil ==> result == nil
-//@   ensures err != nil ==> typeis(result, *withPrefix) && result.(*withPrefix).cause == err
+//@   ensures err != nil ==> typeis(result, *withPrefix) && result.(*withPrefix).cause == err && result.(*withPrefix).prefix == rSprint1(safeV(ifaceOf(message)))
 
 //@ func WithMessagef
 //@   props C10 C07
@@ -63,7 +68,7 @@ package errutil
 //@   ensures[C16] $cap == lvl - 1
 //@ func NewWithDepth
 //@   props C10 C16 C12
-//@   ensures result != nil && typeis(result, *withstack.withStack)
+//@   ensures result != nil && cause1(result) != nil && typeis(cause1(result), *leafError) && cause1(result).(*leafError).msg == rSprint1(safeV(ifaceOf(msg)))
 //@   ensures[C16] $cap == lvl - 1 - depth
 //@ func Newf
 //@   props C10 C16
